@@ -23,6 +23,9 @@ PROPS = {
  "C07": ("exploration", "Offline checker over the recorded result of each recovering parse (error positions strictly increasing and >= 3 lexemes apart, count <= n+1, repairs present on all but the last error, value <=> all repaired, silent acceptance => sentence) with the production 500 ms budget and with logical step budgets {50, 500, 5000}; 'always returns' through the per-case watchdog with isolated confirmation; panics are violations.",
          "Trusted: the checker; Earley for silent acceptance. Grammars with derivation cycles and tables with endless epsilon-reduction loops are excluded (counted). Known finding on conflict-resolved tables matched by mechanism predicate.",
          "runtime monitoring: trace checker over recorded parse outcomes under wall-clock and logical budgets; watchdog for termination", "DESIGN.md §4 C07"),
+ "C08": ("exploration", "The action closures are the probes: every invocation is logged (production, rule, span, arguments, parameter) and the log is checked offline against the production table and the final tree: once per reduction, post-order, argument kinds and order, span = extent of the derived lexemes (zero-length if none), parameter passed through, action-built tree == generic parse-tree mode; with recovery off and across CPCT+ repair replay. Sampled grammars (nullable-heavy) x inputs over texts with gaps.",
+         "Trusted: the log checker. Inserted zero-length lexemes at the edge of a reduction: both readings of the span are accepted.",
+         "runtime monitoring: event-log checker over probe actions (offline trace specification)", "DESIGN.md §4 C08"),
  "C16": ("exploration", "Every state x token x rule of every generated table: state_actions/state_shifts/core_reduces/reduce_only_state/goto vs action() and the graph's edges, reachability of all states, and every closed state vs a reference LR(1) closure of its core. Exhaustive over cells per generated grammar; grammars are sampled.",
          "Trusted: harness FIRST/nullable/closure.",
          "runtime monitoring: invariant checks on the live state graph and table at the quiescent point after construction", "DESIGN.md §4 C16"),
